@@ -229,7 +229,7 @@ func parentMain(prop *Property, tier string, seed int64, verifDir string, nworke
 			var stderrBuf *tailBuf
 			start := func() {
 				pr, pw, _ := os.Pipe()
-				cmd = exec.Command("/bin/sh", "-c", fmt.Sprintf("ulimit -v %d; exec \"$0\" \"$@\"", 12<<20), self, prop.ID, "--tier", tier, "--worker", "--verif", verifDir, "--seed", fmt.Sprint(seed), "--deadline", fmt.Sprint(deadline.UnixNano()))
+				cmd = exec.Command("/bin/sh", "-c", fmt.Sprintf("ulimit -v %d; exec \"$0\" \"$@\"", 6<<20), self, prop.ID, "--tier", tier, "--worker", "--verif", verifDir, "--seed", fmt.Sprint(seed), "--deadline", fmt.Sprint(deadline.UnixNano()))
 				cmd.ExtraFiles = []*os.File{pw}
 				stderrBuf = &tailBuf{}
 				cmd.Stderr = stderrBuf
@@ -314,6 +314,10 @@ func parentMain(prop *Property, tier string, seed int64, verifDir string, nworke
 		}
 	}
 	known := loadKnown(verifDir)
+	outDir := verifDir
+	if d := os.Getenv("VERIF_OUT_DIR"); d != "" {
+		outDir = d // scratch runs against modified trees must not clobber committed evidence
+	}
 	seenKnown := map[string]bool{}
 	nviol := 0
 	exit := 0
@@ -333,7 +337,7 @@ func parentMain(prop *Property, tier string, seed int64, verifDir string, nworke
 		nviol++
 		exit = 1
 		h := sha1.Sum([]byte(f.Sig))
-		path := filepath.Join(verifDir, "replays", fmt.Sprintf("%s-%x.json", prop.ID, h[:5]))
+		path := filepath.Join(outDir, "replays", fmt.Sprintf("%s-%x.json", prop.ID, h[:5]))
 		os.MkdirAll(filepath.Dir(path), 0o755)
 		rep := map[string]any{"property": prop.ID, "scenario": f.Scenario, "tier": tier, "signature": f.Sig, "choices": f.Picks, "explanation": f.Msg, "observed": f.Detail}
 		b, _ := json.MarshalIndent(rep, "", " ")
@@ -368,8 +372,8 @@ func parentMain(prop *Property, tier string, seed int64, verifDir string, nworke
 	cov["known_findings_seen"] = kf
 	ev := evidence{PropertyID: prop.ID, Tier: tier, Seed: seed, Level: prop.Level, Coverage: cov, Assumptions: prop.Assumptions, WallS: time.Since(t0).Seconds(), Violations: nviol}
 	b, _ := json.MarshalIndent(ev, "", " ")
-	os.MkdirAll(filepath.Join(verifDir, "evidence"), 0o755)
-	if err := os.WriteFile(filepath.Join(verifDir, "evidence", prop.ID+".json"), b, 0o644); err != nil {
+	os.MkdirAll(filepath.Join(outDir, "evidence"), 0o755)
+	if err := os.WriteFile(filepath.Join(outDir, "evidence", prop.ID+".json"), b, 0o644); err != nil {
 		fmt.Fprintf(os.Stderr, "evidence: %v\n", err)
 		return 2
 	}
